@@ -106,16 +106,18 @@ def longest_chain(items):
     except RecursionError:
         return None
 
-def expected_resolution(items):
+def expected_resolution(items, magnitude=False):
     """the property's right-hand side, computed from the abstract book with exact rationals: for every recipe the sum over all
-    ingredient paths of the product of the coefficients, per undefined name reached. None when a coefficient is not a plain decimal."""
+    ingredient paths of the product of the coefficients, per undefined name reached. None when a coefficient is not a plain decimal.
+    magnitude=True: the same sums over the ABSOLUTE values of the path products (the scale against which a binary64 result may be off by
+    rounding: a sum whose terms cancel is as inaccurate as its largest terms)."""
     from fractions import Fraction
     book = {}
     cur = None
     for it in items:
         if it[0] == "heading": cur = it[1]; book[cur] = []
         elif it[0] == "entry" and cur is not None:
-            try: book[cur].append((it[1], Fraction(it[2])))
+            try: book[cur].append((it[1], abs(Fraction(it[2])) if magnitude else Fraction(it[2])))
             except (ValueError, ZeroDivisionError): return None
     memo = {}
     def res(r, depth=0):
@@ -175,7 +177,8 @@ def resolve_stream(ctx, books, depths, repeat, tagkey):
                 if names != sorted(set(names)): ctx.violation("C01:unsorted-or-duplicate", "resolved list of %r not strictly sorted" % rname, rep)
                 if any(n in book_names for n in names): ctx.violation("C01:recipe-left-unexpanded", "resolved list of %r still names a recipe" % rname, rep)
             exp = expected_resolution(meta["items"]) if meta.get("items") else None
-            if exp is not None:
+            mag = expected_resolution(meta["items"], magnitude=True) if exp is not None else None
+            if exp is not None and mag is not None:
                 ctx.tally("sum_of_paths_oracle", "applied")
                 for rname, els in pi[1].items():
                     want = exp.get(rname.decode("utf-8", "surrogateescape"))
@@ -183,7 +186,8 @@ def resolve_stream(ctx, books, depths, repeat, tagkey):
                     got = {n.decode("utf-8", "surrogateescape"): bits_to_fraction(b2) for n, b2 in els}
                     if set(got) != set(want):
                         ctx.violation("C01:wrong-elements", "recipe %r resolves to the elements %r, the basic elements reachable from it are %r" % (rname, sorted(got)[:6], sorted(want)[:6]), rep); break
-                    bad = [(x, got[x], want[x]) for x in want if got[x] is not None and abs(got[x] - want[x]) > abs(want[x]) / 10 ** 9 + Fraction(1, 10 ** 12)]
+                    scale = mag.get(rname.decode("utf-8", "surrogateescape"), {})
+                    bad = [(x, got[x], want[x]) for x in want if got[x] is not None and abs(got[x] - want[x]) > scale.get(x, abs(want[x])) / 10 ** 9 + Fraction(1, 10 ** 12)]
                     if bad:
                         ctx.violation("C01:not-sum-of-path-products", "recipe %r, element %r: resolved amount %s, sum over ingredient paths of the products %s" % (rname, bad[0][0], float(bad[0][1]), float(bad[0][2])), rep); break
     return ires
